@@ -103,8 +103,10 @@ func classify(enabled []pair, s pair) string {
 		}
 	}
 	switch {
-	case s.P == "None":
+	case s.P == "None" && s.M == 1:
 		return "C30.accept-none-not-enabled"
+	case s.P == "None":
+		return "C30.accept-none-policy-with-mode"
 	case s.M == 1:
 		return "C30.accept-secure-policy-mode-none"
 	case s.M != 2 && s.M != 3:
@@ -236,6 +238,10 @@ func runProbe(inst *srvx.Inst, id *ids, p probe) outcome {
 	defer cancel()
 	conn, chID, err := inst.DialRegistered(ctx)
 	if err != nil {
+		if strings.Contains(err.Error(), "was not registered") {
+			// TCP connect and HEL/ACK worked, but the server never set up a secure channel for the connection
+			return outcome{Res: "unregistered", Err: err.Error()}
+		}
 		return outcome{Res: "infra", Err: err.Error()}
 	}
 	if p.Kind == "std" {
@@ -480,7 +486,7 @@ func runConfig(c config, probes []probe, id *ids) *cfgResult {
 			continue
 		}
 		o := runProbe(inst, id, p)
-		if o.Res == "undecided" || o.Res == "infra" {
+		if o.Res == "undecided" || o.Res == "infra" || o.Res == "unregistered" {
 			bad++
 		} else {
 			bad = 0
@@ -679,6 +685,8 @@ func sortedPairs(ps []pair) []pair {
 	return out
 }
 
+var failCount = map[string]int{}
+
 func evaluate(r *h.Result, d *h.Driver, res *cfgResult) {
 	c := res.Cfg
 	tag := "E=" + strings.ReplaceAll(pairsStr(c.Intent), " ", ",")
@@ -788,7 +796,10 @@ func evaluate(r *h.Result, d *h.Driver, res *cfgResult) {
 		r.Compare(d, strings.TrimSuffix(fmt.Sprintf("class %s %d %s", got.P, got.M, pairsStr(res.Enabled)), " -"), cl)
 		if cl != "enabled" {
 			detail := fmt.Sprintf("server with enabled pairs {%s} opened a channel with %s (%s)", pairsStr(c.Intent), got, p.Kind)
-			r.Fail(cs, cl, detail)
+			if failCount[cl] < 3 { // h.Result keeps 50 failures: leave room for unlisted ones
+				failCount[cl]++
+				r.Fail(cs, cl, detail)
+			}
 			if cl == "C30.accept-none-not-enabled" && res.Witness != "yes" && c.Witness {
 				// the recorded witness includes reading a value; without that only the channel is confirmed
 				detail += "; full client witness: " + res.Witness
